@@ -36,3 +36,16 @@ def fill(C, PENDING):
       "thorough); weekday navigation against modular arithmetic; n-th weekday of month against enumeration with datetime.date.",
       "Trusts datetime.date.isocalendar/isoweekday and the harness's reading of the regular-rule definition; BCL-style irregular rules are only "
       "checked for self-consistency.", "§3 C16")
+
+    C("C01", "exploration", "runtime monitoring: exhaustive day walk with round-trip/order/field/era monitors + reverse triple enumeration + rejection monitor",
+      "The real day->date and date->day conversions of every calendar are executed for every day of the advertised range (thorough; year/month "
+      "boundary windows and range ends in quick) with monitors for round trip, strict order, field ranges, day-of-year, year length, month-length sums, "
+      "weekday, eras and cross-calendar identity; every (y,m,d) triple inside and one step outside the tables is pushed through the constructor; days "
+      "and fields outside the range must be rejected. Thorough enumerates the finite space completely (exhaustive: true).",
+      "Range derived from public min/max year and month tables; weekday formula (d+3) mod 7 + 1; the internal day constructor is an accelerator "
+      "cross-checked against the public route.", "§3 C01")
+    C("C02", "exploration", "runtime monitoring: differential against independent published-algorithm references and stdlib ordinals",
+      "Year starts, leap flags, month lengths and day<->date conversions of the 17 arithmetic calendars are compared with an independently written "
+      "Reingold-Dershowitz implementation (every day in thorough), ISO/Gregorian additionally with all 3,652,059 datetime.date ordinals; a "
+      "collision-ordered pass (later year first within a cache slot) makes stale year caches visible.",
+      "The published algorithms and epochs as coded in vf/models/calendars_ref.py; a shared misconception between code and reference would go unseen.", "§3 C02")
